@@ -267,9 +267,10 @@ void MidiMappernRT::useFreeID(int ID)
 {
     if(learnQueue.empty()) {
         //nobody waits for a controller (any more): the realtime side must
-        //not keep this one parked as reported
+        //not keep this one parked as reported (midi-remove-watch with the
+        //controller's id, so that every wiring of the realtime half gets it)
         char buf[64];
-        rtosc_message(buf, 64, "/midi-learn/midi-unuse-CC", "i", ID);
+        rtosc_message(buf, 64, "/midi-learn/midi-remove-watch", "i", ID);
         rt_cb(buf);
         return;
     }
@@ -600,20 +601,25 @@ void MidiMapperRT::handleCC(int par, int val, char chan, bool isNrpn) {
 }
 void MidiMapperRT::addWatch(void) {watchSize++;}
 void MidiMapperRT::remWatch(void) {if(watchSize) watchSize--;}
+//with a controller id: that report found no request, it is retired
+//(its watch was spent when it was reported)
+void MidiMapperRT::remWatch(const char *msg)
+{
+    if(rtosc_narguments(msg) == 1 && rtosc_type(msg, 0) == 'i')
+        pending.remove(rtosc_argument(msg, 0).i);
+    else
+        remWatch();
+}
 
 const rtosc::Ports MidiMapperRT::ports = {
     {"midi-add-watch",0,0, [](msg_t, RtData&d)
         {
             auto midi = (MidiMapperRT*)d.obj;
             midi->addWatch();}},
-    {"midi-remove-watch",0,0, [](msg_t, RtData&d)
+    {"midi-remove-watch",0,0, [](msg_t msg, RtData&d)
         {
             auto midi = (MidiMapperRT*)d.obj;
-            midi->remWatch();}},
-    {"midi-unuse-CC:i","",0, [](msg_t msg, RtData&d)
-        {
-            auto midi = (MidiMapperRT*)d.obj;
-            midi->pending.remove(rtosc_argument(msg,0).i);}},
+            midi->remWatch(msg);}},
     {"midi-bind:b","",0, [](msg_t msg, RtData&d)
         {
             auto &midi = *(MidiMapperRT*)d.obj;
@@ -637,8 +643,8 @@ Port MidiMapperRT::addWatchPort(void) {
     }};
 }
 Port MidiMapperRT::removeWatchPort(void) {
-    return Port{"midi-remove-watch","",0, [this](msg_t, RtData&) {
-        this->remWatch();
+    return Port{"midi-remove-watch","",0, [this](msg_t msg, RtData&) {
+        this->remWatch(msg);
     }};
 }
 Port MidiMapperRT::bindPort(void) {
